@@ -612,6 +612,11 @@ class Interp:
                 return n
             if name == "ndim":
                 return len(v.shape)
+            if name == "size" and v.sym is None:
+                n_ = 1
+                for d_ in v.shape:
+                    n_ *= d_
+                return n_
             if name == "strides" and getattr(v, "itemsize", None) is not None:
                 perm = getattr(v, "perm", None)
                 st, acc = [], v.itemsize
